@@ -296,6 +296,7 @@ package resolve
 // mangledName (fmt.Sprintf over the root and the path) is used by symbol.
 //@ opaque mangledName
 //@ func (*APIClient).npmRequirements
+//@   abstract flattenNPMDeps
 //@   assert at "parentName := root.Name": mangled == mangledName(root, pkgs)
 //@   assert at "parentBundle, ok := allDeps[parentName]": ite(len(pkgs) > 1, parentName == mangledName(root, pkgs[:len(pkgs)-1]), parentName == root.Name)
 //@   assert at "parentName := root.Name": allDeps[mangled].vk == bundleVK && allDeps[mangled].originalName == b.Name
